@@ -158,6 +158,9 @@ type Store struct {
 	DefaultManager  string
 	poisoned        map[string]bool
 	admitting       int
+	// graveyard keeps the last versions of removed objects, so that a lagging
+	// cache can still serve an object the store has already deleted.
+	graveyard map[ObjKey][]*unstructured.Unstructured
 }
 
 // New returns an empty store.
@@ -173,6 +176,7 @@ func New(s *runtime.Scheme) *Store {
 		HistoryDepth:    4,
 		DefaultManager:  "crossplane",
 		poisoned:        map[string]bool{},
+		graveyard:       map[ObjKey][]*unstructured.Unstructured{},
 	}
 }
 
@@ -286,6 +290,7 @@ func (s *Store) Mutate(k ObjKey, fn func(u *unstructured.Unstructured)) bool {
 // commit stores n as the new version of e (caller holds the lock).
 func (s *Store) commit(k ObjKey, e *entry, n *unstructured.Unstructured) (deleted bool) {
 	if n.GetDeletionTimestamp() != nil && len(n.GetFinalizers()) == 0 {
+		s.bury(k, e)
 		delete(s.objs, k)
 		return true
 	}
@@ -481,6 +486,11 @@ func (s *Store) Clone() *Store {
 		}
 		n.objs[k] = ne
 	}
+	for k, h := range s.graveyard {
+		for _, o := range h {
+			n.graveyard[k] = append(n.graveyard[k], deepCopy(o))
+		}
+	}
 	n.rv, n.uidN, n.nameN = s.rv, s.uidN, s.nameN
 	for k, v := range s.noStat {
 		n.noStat[k] = v
@@ -500,4 +510,13 @@ func (s *Store) Clone() *Store {
 	n.Now, n.HistoryDepth, n.DefaultManager = s.Now, s.HistoryDepth, s.DefaultManager
 	n.Admit = append(n.Admit, s.Admit...)
 	return n
+}
+
+// bury remembers the history of an object that is being removed.
+func (s *Store) bury(k ObjKey, e *entry) {
+	h := append(append([]*unstructured.Unstructured{}, e.history...), e.obj)
+	if len(h) > s.HistoryDepth {
+		h = h[len(h)-s.HistoryDepth:]
+	}
+	s.graveyard[k] = h
 }
